@@ -37,5 +37,5 @@ Print Assumptions C15_generating_set_independent.
 
 Example C15_example :
   otoc_counts 2 [[PX;PI]; [PZ;PI]; [PI;PX]] [PX;PI] [PZ;PI] = Some (2, 3)%nat /\
-  complexity_counts 2 [[PX;PI]; [PZ;PI]; [PI;PX]] [PX;PI] = Some (2, 3)%nat.
+  complexity_counts 2 [[PX;PI]; [PZ;PI]; [PI;PX]] [PX;PI] = Some (3, 3)%nat.
 Proof. vm_compute. split; reflexivity. Qed.
